@@ -309,6 +309,10 @@ def main(tier, replay=None):
             if "dark" in fs and "light" in fs:
                 fs = ["dark"]   # delta refuses the two together
             tcases.append({"option": o, "value": r.choice(WIDE[o]), "placement": r.choice(["cli", "cli", "main"]), "route": route, "features": fs})
+        # an environment variable that supplies a default (BAT_THEME for syntax-theme) is below the command line and [delta]
+        for placement in ("cli", "main"):
+            for th in ("GitHub", "Nord", "none"):
+                tcases.append({"option": "syntax-theme", "value": th, "placement": placement, "route": "envvar", "features": ["BAT_THEME=Dracula"]})
         # side-by-side rewrites the defaults of the removed-line styles: each of the two given alone
         for o in ("minus-style", "minus-emph-style"):
             for route in ("flag", "features", "env", "env+", "gitconfig"):
@@ -339,6 +343,9 @@ def main(tier, replay=None):
                         args += ["--features", " ".join(c["features"])]
                     elif c["route"] in ("env", "env+"):
                         env["DELTA_FEATURES"] = ("+" if c["route"] == "env+" else "") + " ".join(c["features"])
+                    elif c["route"] == "envvar":
+                        for kv in c["features"]:
+                            env[kv.split("=")[0]] = kv.split("=", 1)[1]
                 rc, out, err = vlib.run_delta(args, env_extra=env)
                 m = re.search(r"^\s*" + re.escape(c["option"]) + r"\s*= ?(.*)$", term.strip(out), re.M)
                 outs.append((rc, m.group(1) if m else None))
